@@ -286,6 +286,13 @@ class Model:
     # ------------------------------------------------------------------ lookups
     def function(self, qualname: str, obligation: str = "-") -> FunctionInfo:
         fi = self.functions.get(qualname)
+        if fi is None and "." in qualname:
+            # a module-level alias: `old_name = new_name` after two functions were merged into one
+            head, _, last = qualname.rpartition(".")
+            mod = self.modules.get(head)
+            node = mod.constants.get(last) if mod is not None else None
+            if isinstance(node, ast.Name) and node.id in mod.functions:
+                return mod.functions[node.id]
         if fi is None:
             raise AnalysisError(f"anchor function {qualname} not found", obligation)
         return fi
@@ -309,6 +316,9 @@ class Model:
         if name in mod.classes:
             return ("cls", mod.classes[name])
         if name in mod.constants:
+            node = mod.constants[name]
+            if isinstance(node, ast.Name) and node.id in mod.functions and depth < 6:
+                return ("func", mod.functions[node.id])  # an alias of a function of the module
             return ("const", mod, name)
         if name in mod.imports and depth < 6:
             return self.resolve_dotted(mod.imports[name], depth + 1)
@@ -546,6 +556,24 @@ class Model:
                     return int(member)
         if isinstance(e, ast.Call):
             fn = ast.unparse(e.func)
+            if fn == "next" and len(e.args) in (1, 2) and not e.keywords and isinstance(e.args[0], ast.Call) and ast.unparse(e.args[0].func) == "iter" and len(e.args[0].args) == 1:
+                # next(iter(xs)): the first element (of a dict: its first key, in insertion order)
+                xs = self.fold(mod, e.args[0].args[0])
+                if isinstance(xs, (dict, list, tuple, str)):
+                    seq = list(xs)
+                    if seq:
+                        return seq[0]
+                    if len(e.args) == 2:
+                        return self.fold(mod, e.args[1])
+                raise AnalysisError(f"cannot fold {ast.unparse(e)[:60]} in {mod.name}")
+            if fn == "next" and len(e.args) in (1, 2) and not e.keywords and isinstance(e.args[0], (ast.GeneratorExp, ast.ListComp)):
+                # next(<generator over constants>[, default]): its first element
+                seq = self._fold(mod, e.args[0])
+                if seq:
+                    return seq[0]
+                if len(e.args) == 2:
+                    return self.fold(mod, e.args[1])
+                raise AnalysisError(f"cannot fold {ast.unparse(e)[:60]} in {mod.name}: empty")
             if fn in ("int", "str") and len(e.args) == 1 and not e.keywords:
                 v = self.fold(mod, e.args[0])
                 if isinstance(v, (int, str)) and not isinstance(v, bool):
@@ -563,6 +591,10 @@ class Model:
                 parts = self.fold(mod, e.args[0])
                 if isinstance(sep, str) and isinstance(parts, (list, tuple)) and all(isinstance(x, str) for x in parts):
                     return sep.join(parts)
+            if isinstance(e.func, ast.Attribute) and e.func.attr in ("items", "keys", "values") and not e.args and not e.keywords:
+                d_ = self.fold(mod, e.func.value)
+                if isinstance(d_, dict):
+                    return [tuple(kv) for kv in d_.items()] if e.func.attr == "items" else list(d_) if e.func.attr == "keys" else list(d_.values())
             if fn in ("frozenset", "set", "tuple", "list") and len(e.args) == 1 and not e.keywords:
                 v = self.fold(mod, e.args[0])
                 if isinstance(v, dict):
